@@ -68,6 +68,7 @@ PROPS = {
             {"test": "FuzzC04R", "fuzz": "FuzzC04R", "tiers": ["thorough"], "fuzztime": 40},
             {"test": "TestC04S", "quick": 2500, "thorough": 300000, "shards_thorough": 14},
             {"test": "FuzzC04S", "fuzz": "FuzzC04S", "tiers": ["thorough"], "fuzztime": 40},
+            {"test": "TestC13Stack", "quick": 300, "thorough": 20000, "shards_thorough": 14},
         ],
         "rule": "Level R, all honest, N in 2..5, up to 9 sends (broadcasts in rounds 1..3 by several senders, point-to-point), weighted delivery "
                 "schedule run to quiescence. Oracle: every broadcast handed exactly once to every other party, every point-to-point message exactly "
